@@ -856,11 +856,14 @@ fn mode_shrinker(seed: u64, limit: usize) -> Vec<serde_json::Value> {
         ("first - second > k (not symmetric)", Box::new(|k| Box::new(move |c: &[u8]| { if c.len() < 2 { return Status::Invalid; } let s = c[0] as i64 - c[1] as i64; if s > (k / 4) as i64 { Status::Keep(Data::list(vec![Data::integer((c[0] as i64).into()), Data::integer((c[1] as i64).into())])) } else { Status::Ignore } }))),
         ("second - first > k (not symmetric)", Box::new(|k| Box::new(move |c: &[u8]| { if c.len() < 2 { return Status::Invalid; } let s = c[1] as i64 - c[0] as i64; if s > (k / 4) as i64 { Status::Keep(Data::list(vec![Data::integer((c[0] as i64).into()), Data::integer((c[1] as i64).into())])) } else { Status::Ignore } }))),
         ("list with length prefix, some element > k", Box::new(|k| Box::new(move |c: &[u8]| { if c.is_empty() { return Status::Invalid; } let n = (c[0] % 5) as usize; if c.len() < 1 + n { return Status::Invalid; } let xs = &c[1..1 + n]; if xs.iter().any(|x| *x > k) { Status::Keep(Data::list(xs.iter().map(|x| Data::integer((*x as i64).into())).collect())) } else { Status::Ignore } }))),
+        ("sum >= 100+k and first >= second", Box::new(|k| Box::new(move |c: &[u8]| { if c.len() < 2 { return Status::Invalid; } let s = c[0] as i64 + c[1] as i64; if s >= 100 + k as i64 && c[0] >= c[1] { Status::Keep(Data::list(vec![Data::integer((c[0] as i64).into()), Data::integer((c[1] as i64).into())])) } else { Status::Ignore } }))),
+        ("sum >= 100+k and second >= first", Box::new(|k| Box::new(move |c: &[u8]| { if c.len() < 2 { return Status::Invalid; } let s = c[0] as i64 + c[1] as i64; if s >= 100 + k as i64 && c[1] >= c[0] { Status::Keep(Data::list(vec![Data::integer((c[0] as i64).into()), Data::integer((c[1] as i64).into())])) } else { Status::Ignore } }))),
+        ("sum of 2nd and 4th >= 100+k and 2nd >= 4th", Box::new(|k| Box::new(move |c: &[u8]| { if c.len() < 4 { return Status::Invalid; } let s = c[1] as i64 + c[3] as i64; if s >= 100 + k as i64 && c[1] >= c[3] { Status::Keep(Data::integer(s.into())) } else { Status::Ignore } }))),
         ("constant fuzzer, always falsified", Box::new(|_k| Box::new(move |_c: &[u8]| Status::Keep(Data::integer(0.into()))))),
         ("third choice odd and first >= k", Box::new(|k| Box::new(move |c: &[u8]| { if c.len() < 3 { return Status::Invalid; } if c[2] % 2 == 1 && c[0] >= k { Status::Keep(Data::integer((c[0] as i64 * 256 + c[2] as i64).into())) } else { Status::Ignore } }))),
     ];
     let mut n = 0;
-    for round in 0..400 {
+    for round in 0..900 {
         if fails.len() >= limit {
             break;
         }
@@ -895,7 +898,7 @@ fn mode_shrinker(seed: u64, limit: usize) -> Vec<serde_json::Value> {
             }
         }
     }
-    println!("BOUNDS mode=shrinker {n} (fuzzer family x threshold x initial failing choice sequence of length 1..9) cases over 6 synthetic deterministic fuzzers; seed {seed}");
+    println!("BOUNDS mode=shrinker {n} (fuzzer family x threshold x initial failing choice sequence of length 1..9) cases over 9 synthetic deterministic fuzzers; seed {seed}");
     fails
 }
 
